@@ -1,6 +1,7 @@
 package main
 
 import (
+	"go/types"
 	"strings"
 
 	"golang.org/x/tools/go/ssa"
@@ -31,6 +32,7 @@ func checkC09(c *Ctx) {
 	c.Expect("C09.7", 3)
 	c.Expect("C09.10", 2)
 
+	c09Engines(c)
 	vc := p.Method("protocol/votingmachine", "VotingMachine", "verifyCert")
 	cv := p.Method("protocol/votingmachine", "VotingMachine", "CollectVote")
 	if vc == nil || cv == nil {
@@ -735,4 +737,140 @@ func localCopyOfParam(v ssa.Value, idx int) bool {
 			return false
 		}
 	}
+}
+
+// c09Engines (C09.11): votes are verified concurrently (one goroutine per vote), so the crypto schemes must be re-entrant.
+// The group and pairing objects of the BLS library (G1, G2, Engine) carry scratch temporaries that every operation
+// overwrites; the repository's idiom is one object per use. Rule: in package security/crypto every method call on such an
+// object has a receiver created by the library's constructor in the same function (or the G1/G2 of such an engine) -- never
+// one kept in a struct field, a package variable or passed in from elsewhere (where two verifications would share it).
+func c09Engines(c *Ctx) {
+	p := c.P
+	isEngineType := func(t types.Type) bool {
+		pt, ok := t.(*types.Pointer)
+		if !ok {
+			return false
+		}
+		n, ok := pt.Elem().(*types.Named)
+		if !ok || n.Obj().Pkg() == nil || !strings.HasSuffix(n.Obj().Pkg().Path(), "kilic/bls12-381") {
+			return false
+		}
+		switch n.Obj().Name() {
+		case "G1", "G2", "Engine":
+			return true
+		}
+		return false
+	}
+	var origin func(v ssa.Value, fn *ssa.Function, seen map[ssa.Value]bool) string
+	origin = func(v ssa.Value, fn *ssa.Function, seen map[ssa.Value]bool) string {
+		if seen[v] {
+			return ""
+		}
+		seen[v] = true
+		switch x := v.(type) {
+		case *ssa.Call:
+			if cal := x.Call.StaticCallee(); cal != nil && cal.Pkg != nil && strings.HasSuffix(cal.Pkg.Pkg.Path(), "kilic/bls12-381") && strings.HasPrefix(cal.Name(), "New") {
+				return ""
+			}
+			return "the result of " + x.Call.Value.Name()
+		case *ssa.Phi:
+			for _, e := range x.Edges {
+				if why := origin(e, fn, seen); why != "" {
+					return why
+				}
+			}
+			return ""
+		case *ssa.UnOp:
+			switch a := x.X.(type) {
+			case *ssa.FieldAddr:
+				// engine.G1 / engine.G2 of a locally created engine
+				if isEngineType(a.X.Type()) {
+					return origin(a.X, fn, seen)
+				}
+				return "the field " + fieldName(a.X.Type(), a.Field)
+			case *ssa.Alloc:
+				for _, r := range *a.Referrers() {
+					if st, ok := r.(*ssa.Store); ok && st.Addr == a {
+						if why := origin(st.Val, fn, seen); why != "" {
+							return why
+						}
+					}
+				}
+				return ""
+			case *ssa.Global:
+				return "the package variable " + a.Name()
+			case *ssa.FreeVar:
+				return origin(a, fn, seen)
+			}
+			return "a value loaded from " + x.X.String()
+		case *ssa.FreeVar:
+			par := fn.Parent()
+			if par == nil {
+				return "a captured variable"
+			}
+			idx := -1
+			for i, fv := range fn.FreeVars {
+				if fv == x {
+					idx = i
+				}
+			}
+			var why string
+			found := false
+			eachInstr(par, func(in ssa.Instruction) {
+				mc, ok := in.(*ssa.MakeClosure)
+				if !ok || mc.Fn != fn || idx < 0 || idx >= len(mc.Bindings) {
+					return
+				}
+				found = true
+				b := mc.Bindings[idx]
+				if a, ok := b.(*ssa.Alloc); ok {
+					for _, r := range *a.Referrers() {
+						if st, ok := r.(*ssa.Store); ok && st.Addr == a && why == "" {
+							why = origin(st.Val, par, seen)
+						}
+					}
+					return
+				}
+				if why == "" {
+					why = origin(b, par, seen)
+				}
+			})
+			if !found {
+				return "a captured variable"
+			}
+			return why
+		case *ssa.Parameter:
+			return "the parameter " + x.Name()
+		}
+		return v.String()
+	}
+	n := 0
+	var bad []string
+	for _, fn := range p.ModFuncs {
+		if funcPkgPath(fn) != modPath+"/security/crypto" {
+			continue
+		}
+		eachInstr(fn, func(in ssa.Instruction) {
+			ci, ok := in.(ssa.CallInstruction)
+			if !ok {
+				return
+			}
+			cm := ci.Common()
+			cal := cm.StaticCallee()
+			if cal == nil || cal.Signature.Recv() == nil || len(cm.Args) == 0 || !isEngineType(cm.Args[0].Type()) {
+				return
+			}
+			n++
+			if why := origin(cm.Args[0], fn, map[ssa.Value]bool{}); why != "" {
+				bad = append(bad, p.InstrPos(in)+" in "+shortName(fn)+": "+cal.Name()+" on "+why)
+			}
+		})
+	}
+	if n == 0 {
+		c.Unresolved("C09.11", "security/crypto: BLS group/pairing objects", "no use of the library's G1/G2/Engine found")
+		return
+	}
+	c.Check(len(bad) == 0, "C09.11", "security/crypto: BLS group and pairing objects are created per use", p.FuncPos(p.Method("security/crypto", "bls12Base", "coreVerify")),
+		itoa(n)+" operations on G1/G2/Engine objects, each on an object created by the library's constructor in the same function: concurrent verifications share no scratch state",
+		"a stateful group/pairing object is shared between calls: "+join(bad)+" (two votes verified at the same time overwrite each other's temporaries; a valid vote fails verification and is dropped)")
 }
